@@ -131,38 +131,73 @@ func histories(thorough bool) []*history {
 		// storage level: OpenTSDB, create a segment and its shard, write two files durably into the shard, close
 		{Name: "S1-segment", Kind: "segment", Steps: strings.Fields("open seg tab d d close")},
 	}
-	// every history of up to depth steps over {w, f, m, p} in which each step has an effect and the last one publishes a
-	// manifest (gc follows f/m as in the introducer loop); thorough also runs the ones that merge with late removal
 	depth := 5
 	if thorough {
 		depth = 7
 	}
-	var gen func(prefix []string, mem, file int)
+	hs = append(hs, generated("", "G", depth, "wfmp", thorough)...)
+	// the same alphabet on a secondary-index instance (sidx.go)
+	hs = append(hs,
+		&history{Name: "X1-sidx-eager", Kind: "sidx", Steps: strings.Fields("init w w f gc w f gc m gc")},
+		&history{Name: "X1-sidx-late", Kind: "sidx", Queued: true, Steps: strings.Fields("init w w f gc w f gc m gc drain")},
+		&history{Name: "X2-sidx-interleaved", Kind: "sidx", Steps: strings.Fields("init w w fb w fe gc f gc m gc")},
+	)
+	// and on the stream tsTable (stream.go)
+	hs = append(hs,
+		&history{Name: "R1-stream-eager", Kind: "stream", Steps: strings.Fields("init w w f gc w f gc m gc")},
+		&history{Name: "R2-stream-interleaved", Kind: "stream", Steps: strings.Fields("init w w fb w fe gc f gc m gc")},
+	)
+	if thorough {
+		hs = append(hs, &history{Name: "R1-stream-late", Kind: "stream", Queued: true, Steps: strings.Fields("init w w f gc w f gc m gc drain")})
+		hs = append(hs, generated("sidx", "XG", 5, "wfmpi", true)...)
+		hs = append(hs, generated("stream", "RG", 5, "wfmpi", true)...)
+	}
+	return hs
+}
+
+// generated returns every history of up to depth steps over the alphabet (w write, f flush, m merge all file parts,
+// p merge the two oldest file parts, i = flush with a write landing between the flusher's and the introducer's half) in
+// which each step has an effect and the last one publishes a manifest; gc follows every publication as in the
+// introducer loop. late adds, for every history that merges, the variant with late background removal.
+func generated(kind, tag string, depth int, alphabet string, late bool) []*history {
+	var hs []*history
+	expand := map[string]string{"w": "w", "f": "f gc", "m": "m gc", "p": "p gc", "i": "fb w fe gc"}
 	seen := map[string]bool{}
+	var gen func(prefix []string, mem, file int)
 	gen = func(prefix []string, mem, file int) {
-		if len(prefix) > 0 && (prefix[len(prefix)-1] != "w") {
-			s := "init " + strings.Join(prefix, " ")
-			s = strings.ReplaceAll(strings.ReplaceAll(strings.ReplaceAll(s, "f", "f gc"), "m", "m gc"), "p", "p gc")
-			if !seen[s] {
-				seen[s] = true
-				hs = append(hs, mk("G:"+strings.Join(prefix, ""), false, s))
-				if thorough && strings.ContainsAny(s, "mp") {
-					hs = append(hs, mk("L:"+strings.Join(prefix, ""), true, s+" drain"))
+		if len(prefix) > 0 && prefix[len(prefix)-1] != "w" {
+			steps := []string{"init"}
+			for _, c := range prefix {
+				steps = append(steps, strings.Fields(expand[c])...)
+			}
+			key := strings.Join(steps, " ")
+			if !seen[key] {
+				seen[key] = true
+				name := strings.Join(prefix, "")
+				hs = append(hs, &history{Name: tag + ":" + name, Kind: kind, Steps: steps})
+				if late && strings.ContainsAny(name, "mp") {
+					hs = append(hs, &history{Name: tag + "L:" + name, Kind: kind, Queued: true, Steps: append(append([]string{}, steps...), "drain")})
 				}
 			}
 		}
 		if len(prefix) == depth {
 			return
 		}
-		gen(append(append([]string{}, prefix...), "w"), mem+1, file)
-		if mem > 0 {
-			gen(append(append([]string{}, prefix...), "f"), 0, file+mem)
+		next := func(c string, m, f int) { gen(append(append([]string{}, prefix...), c), m, f) }
+		if strings.Contains(alphabet, "w") {
+			next("w", mem+1, file)
 		}
-		if file >= 2 {
-			gen(append(append([]string{}, prefix...), "m"), mem, 1)
+		if mem > 0 && strings.Contains(alphabet, "f") {
+			next("f", 0, file+mem)
 		}
-		if file >= 3 {
-			gen(append(append([]string{}, prefix...), "p"), mem, file-1)
+		if mem > 0 && strings.Contains(alphabet, "i") {
+			next("i", 1, file+mem)
+		}
+		if file >= 2 && strings.Contains(alphabet, "m") {
+			next("m", mem, 1)
+		}
+		if file >= 3 && strings.Contains(alphabet, "p") {
+			next("p", mem, file-1)
 		}
 	}
 	gen(nil, 0, 0)
@@ -179,6 +214,9 @@ type recording struct {
 func record(h *history, scratch string) *recording {
 	if h.Kind == "segment" {
 		return recordSegment(h, scratch)
+	}
+	if k := tableKinds[h.Kind]; k != nil {
+		return recordTable(h, k, scratch)
 	}
 	root, err := os.MkdirTemp(scratch, "rec-")
 	if err != nil {
